@@ -498,6 +498,204 @@ fn source(ctx: &Ctx, a: usize, others: &[usize]) -> BoxedStrategy<V3> {
     }
 }
 
+
+// ------------------------------------------------------------------------------------------
+// User-defined colour types: the conversions are written by #[derive(FromColorUnclamped, WithAlpha)] from one or two
+// manual impls (palette_derive walks the conversion tree to the nearest colour of `skip_derives`). Same relations as for
+// the built-in types: direct == through the manual base, there and back, transparency carried through unchanged.
+mod custom {
+    use palette::convert::{FromColorUnclamped, IntoColorUnclamped};
+    use palette::rgb::Rgb;
+    use palette::white_point::D65;
+    use palette::{Lab, Srgb, WithAlpha, Xyz};
+
+    /// XYZ on a 0..100 scale (default base of the derive: Xyz)
+    #[derive(Clone, Copy, Debug, PartialEq, FromColorUnclamped, WithAlpha)]
+    #[palette(component = "f64")]
+    pub struct Xyz100 {
+        pub x: f64,
+        pub y: f64,
+        pub z: f64,
+    }
+    impl FromColorUnclamped<Xyz<palette::white_point::D65, f64>> for Xyz100 {
+        fn from_color_unclamped(c: Xyz<palette::white_point::D65, f64>) -> Self {
+            Xyz100 { x: c.x * 100.0, y: c.y * 100.0, z: c.z * 100.0 }
+        }
+    }
+    impl FromColorUnclamped<Xyz100> for Xyz<palette::white_point::D65, f64> {
+        fn from_color_unclamped(c: Xyz100) -> Self {
+            Xyz::new(c.x / 100.0, c.y / 100.0, c.z / 100.0)
+        }
+    }
+
+    /// CSS-like sRGB with its own alpha field (base: Rgb; the derive has to carry the alpha field through)
+    #[derive(Clone, Copy, Debug, PartialEq, FromColorUnclamped, WithAlpha)]
+    #[palette(skip_derives(Rgb), component = "f64", rgb_standard = "palette::encoding::Srgb")]
+    pub struct MyRgba {
+        pub red: f64,
+        pub green: f64,
+        pub blue: f64,
+        #[palette(alpha)]
+        pub alpha: f64,
+    }
+    impl<S> FromColorUnclamped<Rgb<S, f64>> for MyRgba
+    where
+        Srgb<f64>: FromColorUnclamped<Rgb<S, f64>>,
+    {
+        fn from_color_unclamped(c: Rgb<S, f64>) -> Self {
+            let s = Srgb::<f64>::from_color_unclamped(c);
+            MyRgba { red: s.red * 255.0, green: s.green * 255.0, blue: s.blue * 255.0, alpha: 1.0 }
+        }
+    }
+    impl<S> FromColorUnclamped<MyRgba> for Rgb<S, f64>
+    where
+        Srgb<f64>: IntoColorUnclamped<Rgb<S, f64>>,
+    {
+        fn from_color_unclamped(c: MyRgba) -> Self {
+            Srgb::<f64>::new(c.red / 255.0, c.green / 255.0, c.blue / 255.0).into_color_unclamped()
+        }
+    }
+
+    /// L*a*b* with swapped field order (base: Lab, so every other colour is reached through Lab)
+    #[derive(Clone, Copy, Debug, PartialEq, FromColorUnclamped, WithAlpha)]
+    #[palette(skip_derives(Lab), component = "f64", white_point = "D65")]
+    pub struct Bal {
+        pub b: f64,
+        pub a: f64,
+        pub l: f64,
+    }
+    impl FromColorUnclamped<Lab<D65, f64>> for Bal {
+        fn from_color_unclamped(c: Lab<D65, f64>) -> Self {
+            Bal { b: c.b, a: c.a, l: c.l }
+        }
+    }
+    impl FromColorUnclamped<Bal> for Lab<D65, f64> {
+        fn from_color_unclamped(c: Bal) -> Self {
+            Lab::new(c.l, c.a, c.b)
+        }
+    }
+}
+
+#[derive(Debug, Clone, Serialize, Deserialize)]
+struct CustomCase {
+    /// an sRGB colour
+    c: [f64; 3],
+    alpha: f64,
+}
+
+fn custom_point(c: &CustomCase, obs: &mut Obs) -> PropResult {
+    use custom::{Bal, MyRgba, Xyz100};
+    use palette::convert::FromColorUnclamped;
+    use palette::white_point::D65;
+    use palette::{Hsl, Hsluv, Hsv, Hwb, Lab, Lch, Lchuv, LinSrgb, Luv, Okhsl, Okhsv, Okhwb, Oklab, Oklch, Srgb, Xyz, Yxy};
+    obs.nontrivial_if(c.alpha != 0.0 && c.alpha != 1.0);
+    let srgb = Srgb::<f64>::new(c.c[0], c.c[1], c.c[2]);
+    let dist = |p: [f64; 3], q: [f64; 3]| (0..3).map(|i| (p[i] - q[i]).abs()).fold(0.0, f64::max);
+    // ---- D65 types: compare in XYZ (the embedding), tolerance by the target's family ----
+    macro_rules! via {
+        // $U: custom type, $Base: its manual base, $u: a value of $U, $B: target, $tol
+        ($un:expr, $U:ty, $Base:ty, $u:expr, $bn:expr, $B:ty, $W:ty, $tol:expr) => {{
+            let u: $U = $u;
+            let direct = <$B>::from_color_unclamped(u);
+            let step = <$B>::from_color_unclamped(<$Base>::from_color_unclamped(u));
+            let (xd, xs) = (Xyz::<$W, f64>::from_color_unclamped(direct), Xyz::<$W, f64>::from_color_unclamped(step));
+            let d = dist([xd.x, xd.y, xd.z], [xs.x, xs.y, xs.z]);
+            ensure!(d <= $tol, "{} -> {} directly gives {:?}, through the manual base {:?} (distance {:e} in XYZ, allowed {:e}) for {:?}", $un, $bn, direct, step, d, $tol, u);
+            // and back: B -> U directly vs through the base, and the round trip
+            let back = <$U>::from_color_unclamped(direct);
+            let back_step = <$U>::from_color_unclamped(<$Base>::from_color_unclamped(direct));
+            let (xb, xbs, xu) = (Xyz::<$W, f64>::from_color_unclamped(back), Xyz::<$W, f64>::from_color_unclamped(back_step), Xyz::<$W, f64>::from_color_unclamped(u));
+            let d = dist([xb.x, xb.y, xb.z], [xbs.x, xbs.y, xbs.z]);
+            ensure!(d <= $tol, "{} -> {} directly gives {:?}, through the manual base {:?} (distance {:e} in XYZ) for {:?}", $bn, $un, back, back_step, d, direct);
+            // there and back crosses a hard-coded 7-digit matrix pair for most targets (tier M of the built-in pairs)
+            let d = dist([xb.x, xb.y, xb.z], [xu.x, xu.y, xu.z]);
+            let rt: f64 = ($tol as f64).max(2e-5);
+            ensure!(d <= rt, "{} -> {} -> {} returns {:?} for {:?} (distance {:e} in XYZ, allowed {:e})", $un, $bn, $un, back, u, d, rt);
+            // a target wrapped in Alpha: opaque alpha unless the source carries one
+            let wrapped = palette::Alpha::<$B, f64>::from_color_unclamped(u);
+            (direct, wrapped)
+        }};
+    }
+    macro_rules! all_d65 {
+        ($un:expr, $U:ty, $Base:ty, $u:expr, $want_alpha:expr) => {{
+            macro_rules! one {
+                ($bn:expr, $B:ty, $tol:expr) => {{
+                    let (direct, wrapped) = via!($un, $U, $Base, $u, $bn, $B, D65, $tol);
+                    ensure!(wrapped.alpha.to_bits() == ($want_alpha as f64).to_bits(), "{} -> Alpha<{}>: alpha = {} expected {}", $un, $bn, wrapped.alpha, $want_alpha);
+                    ensure!(format!("{:?}", wrapped.color) == format!("{:?}", direct), "{} -> Alpha<{}>: colour {:?} differs from the bare conversion {:?}", $un, $bn, wrapped.color, direct);
+                }};
+            }
+            one!("Srgb", Srgb<f64>, 1e-9);
+            one!("LinSrgb", LinSrgb<f64>, 1e-9);
+            one!("Xyz", Xyz<D65, f64>, 1e-9);
+            one!("Yxy", Yxy<D65, f64>, 1e-9);
+            one!("Lab", Lab<D65, f64>, 1e-9);
+            one!("Lch", Lch<D65, f64>, 1e-9);
+            one!("Luv", Luv<D65, f64>, 1e-9);
+            one!("Lchuv", Lchuv<D65, f64>, 1e-9);
+            one!("Hsluv", Hsluv<D65, f64>, 1e-7);
+            one!("Hsl", Hsl<palette::encoding::Srgb, f64>, 1e-9);
+            one!("Hsv", Hsv<palette::encoding::Srgb, f64>, 1e-9);
+            one!("Hwb", Hwb<palette::encoding::Srgb, f64>, 1e-9);
+            one!("Oklab", Oklab<f64>, 1e-3);
+            one!("Oklch", Oklch<f64>, 1e-3);
+            one!("Okhsl", Okhsl<f64>, 1e-3);
+            one!("Okhsv", Okhsv<f64>, 1e-3);
+            one!("Okhwb", Okhwb<f64>, 1e-3);
+        }};
+    }
+    // Okhsl next to white and black is a known non-invertible zone (C01 / C15 findings): keep the colours away from the tips
+    let tip = c.c.iter().all(|v| *v > 0.97) || c.c.iter().all(|v| *v < 1e-4);
+    if !tip {
+        let x = Xyz::<D65, f64>::from_color_unclamped(srgb);
+        all_d65!("Xyz100", Xyz100, Xyz<D65, f64>, Xyz100 { x: x.x * 100.0, y: x.y * 100.0, z: x.z * 100.0 }, 1.0);
+        let my = MyRgba { red: c.c[0] * 255.0, green: c.c[1] * 255.0, blue: c.c[2] * 255.0, alpha: c.alpha };
+        all_d65!("MyRgba", MyRgba, Srgb<f64>, my, c.alpha);
+        let lab = Lab::<D65, f64>::from_color_unclamped(srgb);
+        all_d65!("Bal", Bal, Lab<D65, f64>, Bal { b: lab.b, a: lab.a, l: lab.l }, 1.0);
+    }
+    // ---- the alpha field of a user type ----
+    let my = MyRgba { red: c.c[0] * 255.0, green: c.c[1] * 255.0, blue: c.c[2] * 255.0, alpha: c.alpha };
+    {
+        use palette::WithAlpha;
+        macro_rules! into_my {
+            ($bn:expr, $B:ty) => {{
+                let b = <$B>::from_color_unclamped(my);
+                let bare = MyRgba::from_color_unclamped(b);
+                ensure!(bare.alpha == 1.0, "{} -> MyRgba: alpha = {} for an opaque source (expected 1)", $bn, bare.alpha);
+                let from_alpha = MyRgba::from_color_unclamped(palette::Alpha { color: b, alpha: c.alpha });
+                ensure!(from_alpha.alpha.to_bits() == c.alpha.to_bits(), "Alpha<{}> (alpha {}) -> MyRgba: alpha = {}", $bn, c.alpha, from_alpha.alpha);
+                ensure!([from_alpha.red, from_alpha.green, from_alpha.blue].map(f64::to_bits) == [bare.red, bare.green, bare.blue].map(f64::to_bits), "Alpha<{}> -> MyRgba: colour {:?} differs from the bare conversion {:?}", $bn, from_alpha, bare);
+                // a user type without alpha field drops it / gets it through the wrapper
+                let plain = Xyz100::from_color_unclamped(palette::Alpha { color: b, alpha: c.alpha });
+                let plain_bare = Xyz100::from_color_unclamped(b);
+                ensure!(plain == plain_bare || (plain.x.is_nan() && plain_bare.x.is_nan()), "Alpha<{}> -> Xyz100 differs from {} -> Xyz100", $bn, $bn);
+                let wrapped = palette::Alpha::<Xyz100, f64>::from_color_unclamped(palette::Alpha { color: b, alpha: c.alpha });
+                ensure!(wrapped.alpha.to_bits() == c.alpha.to_bits() && (wrapped.color == plain_bare || plain_bare.x.is_nan()), "Alpha<{}> -> Alpha<Xyz100>: {:?} expected colour {:?} alpha {}", $bn, wrapped, plain_bare, c.alpha);
+            }};
+        }
+        into_my!("Srgb", Srgb<f64>);
+        into_my!("LinSrgb", LinSrgb<f64>);
+        into_my!("Lab", Lab<D65, f64>);
+        into_my!("Lch", Lch<D65, f64>);
+        into_my!("Hsv", Hsv<palette::encoding::Srgb, f64>);
+        into_my!("Oklab", Oklab<f64>);
+        into_my!("Okhsv", Okhsv<f64>);
+        // WithAlpha on a type that has its own alpha field: the field is set, nothing else changes
+        let w = my.with_alpha(0.25);
+        ensure!(w.alpha == 0.25 && w.red == my.red && w.green == my.green && w.blue == my.blue, "MyRgba::with_alpha(0.25) = {:?}", w);
+        let (col, a) = my.split();
+        ensure!(a.to_bits() == c.alpha.to_bits() && col.red == my.red, "MyRgba::split = ({:?}, {})", col, a);
+        let o = my.opaque();
+        let t = my.transparent();
+        ensure!(o.alpha == 1.0 && t.alpha == 0.0, "MyRgba::opaque / transparent = {} / {}", o.alpha, t.alpha);
+        let x100 = Xyz100 { x: 10.0, y: 20.0, z: 30.0 };
+        let xa = x100.with_alpha(c.alpha);
+        ensure!(xa.alpha.to_bits() == c.alpha.to_bits() && xa.color == x100 && xa.without_alpha() == x100, "Xyz100::with_alpha");
+    }
+    Ok(())
+}
+
 fn main() {
     let mut h = Harness::new("C01");
     h.rule("Ordered pairs of the 51-space type matrix (18 core types all-pairs; RGB standards sRGB / linear / Adobe / Rec.709 / Rec.2020 / Display P3 / DCI-P3 / ProPhoto; white points D65, D50, A, E, DCI; cylindrical spaces of four standards; two LMS matrices), f64 and f32, bare and with Alpha. Sources: in-gamut sRGB colours (faces, edges, corners, greys, dark, interior) expressed in the source space through the reference definitions, plus the source's own nominal box when no space on the route is confined to another gamut. Oracles: A->B->A returns the source in A's cartesian embedding (tier E 1e-10 within one family of constants, M 2e-5 across a hard-coded 7-digit matrix pair, S 6e-4 across the Oklab direct/M1 seam; f32 2e-3 after a conditioning filter); direct A->B equals A->C->B for every intermediate C of the matrix (worst tier of the legs); Alpha<A>->Alpha<B> has the colour bitwise equal to A->B and the alpha bitwise unchanged, Alpha<A>->B and A->Alpha<B> likewise; with_alpha / split / without_alpha are exact. Non-trivial = A != B (and C distinct), source chromatic (embedding chroma > 1e-3), alpha not 0 or 1; distinct by hash.");
@@ -577,6 +775,13 @@ fn main() {
         |c, obs| alpha_point(ctxr, c, obs),
     );
     let n = h.n(50_000, 2_000_000);
+    let ncu = h.n(150_000, 3_000_000);
+    h.prop(
+        "user_defined_colour_types",
+        ncu,
+        || (pv::types::in_gamut_rgb(), prop_oneof![3 => unit(), 1 => Just(0.0), 1 => Just(1.0)]).prop_map(|(c, alpha)| CustomCase { c, alpha }),
+        custom_point,
+    );
     h.prop("with_alpha_split", n, || ([-1.0..=2.0f64, -1.0..=2.0f64, -1.0..=2.0f64], unit()).prop_map(|(x, alpha)| WaCase { x, alpha }), with_alpha_point);
     h.finish();
 }
